@@ -23,6 +23,59 @@ var replicaSideOps = map[string]string{
 }
 
 func c07(c *Ctx) {
+	// a transaction without entries is produced on one condition (it carries metadata of its own, not only the client's
+	// "extra"): the primary commits and exports it. The receiving side decides on the same condition, or the replica
+	// refuses what the primary committed and replication stops at that transaction for ever.
+	{
+		r := "C07.13/empty-transaction-accepted-as-it-is-produced"
+		for _, name := range []string{storeT + "precommit", "embedded/store.(*TxHeader).ReadFrom"} {
+			f := c.mustFn(r, name)
+			if f == nil {
+				continue
+			}
+			okc := false
+			for _, leaves := range condClusters(f) {
+				count, empty, extraOnly := false, false, false
+				for _, leaf := range leaves {
+					d := desc(leaf)
+					if strings.Contains(d, ".NEntries") || (strings.Contains(d, "len(") && strings.Contains(d, "entries")) {
+						count = true
+					}
+					if strings.Contains(d, "(*TxMetadata).IsEmpty") {
+						empty = true
+					}
+					if strings.Contains(d, "(*TxMetadata).HasExtraOnly") {
+						extraOnly = true
+					}
+				}
+				if count && empty && extraOnly {
+					okc = true
+				}
+			}
+			c.check(okc, r, fnName(f)+":empty-tx-condition", c.pos(f.Pos()), "zero entries are judged together with TxMetadata.IsEmpty() / HasExtraOnly()",
+				"the number of entries is judged without looking at the tx metadata: a transaction that carries only the truncation marker is committed and exported by the primary and refused by the replica")
+		}
+	}
+	// a primary that is demoted stops counting acknowledgements: the table of replica states, whose mere existence makes
+	// ExportTxByID accept a ReplicaState and turn it into a commit allowance, is dropped on the asReplica path
+	if f := c.mustFn("C07.12/demotion-drops-replica-states", "pkg/database.(*db).AsReplica"); f != nil {
+		r := "C07.12/demotion-drops-replica-states"
+		isRep := whenCond(true, func(a string) bool { return a == "param:asReplica" })
+		var edges []cfgEdge
+		for _, b := range f.Blocks {
+			for si := range b.Succs {
+				if isRep(b, si) {
+					edges = append(edges, cfgEdge{b, si})
+				}
+			}
+		}
+		if len(edges) == 0 {
+			c.fail(r, fnName(f)+":replicaStates", c.pos(f.Pos()), "AsReplica no longer branches on asReplica: the replica-state table of a demoted primary is kept, and acknowledgements of downstream replicas still raise its commit allowance")
+		} else {
+			q := &pathQ{fn: f, fromEdges: edges, to: isReturn, via: storeTo("db.replicaStates")}
+			c.check(q.bypass() == nil, r, fnName(f)+":replicaStates", c.pos(f.Pos()), "every path of a demotion resets db.replicaStates", "a database that becomes a replica keeps its table of replica states: ExportTxByID still accepts a ReplicaState from a downstream node and calls AllowCommitUpto with it, so the demoted node commits before its new primary did")
+		}
+	}
 	c07PartialMessage(c, "C07.11/partial-message-is-never-enqueued")
 	// "a replica [reports a transaction committed] only after the primary did": with external commit allowance the store
 	// commits up to commitAllowedUpToTxID. Only AllowCommitUpto (driven by the primary's committed state / the acks)
@@ -617,4 +670,54 @@ func c07PartialMessage(c *Ctx, r string) {
 	}
 	c.check(guarded, r, fnName(f)+":eof-with-bytes-leaves-before-enqueue", c.pos(sends[0].Pos()), "when the receiver reports io.EOF together with bytes, the function leaves before the send on prefetchTxBuffer",
 		"io.EOF from ReadFully is tolerated and nothing tells a stream that ended between two messages from one that ended inside a message: the received fragment is enqueued as a transaction, replicateSingleTx retries it forever and replication does not resume")
+}
+
+// condClusters groups the branch conditions of fn that belong to one source-level condition: `a && (b || c)` used in
+// an `if` is lowered to a chain of blocks ("cond.true" / "cond.false" / "binop.rhs"), each ending in its own If on one
+// operand. A cluster is the set of leaf conditions of such a chain.
+func condClusters(fn *ssa.Function) [][]ssa.Value {
+	isCondBlock := func(b *ssa.BasicBlock) bool {
+		return strings.HasPrefix(b.Comment, "cond.") || strings.HasPrefix(b.Comment, "binop.")
+	}
+	ifOf := func(b *ssa.BasicBlock) *ssa.If {
+		if len(b.Instrs) == 0 {
+			return nil
+		}
+		ifi, _ := b.Instrs[len(b.Instrs)-1].(*ssa.If)
+		return ifi
+	}
+	seen := map[*ssa.BasicBlock]bool{}
+	var out [][]ssa.Value
+	for _, b := range fn.Blocks {
+		if seen[b] || ifOf(b) == nil || isCondBlock(b) {
+			continue
+		}
+		var leaves []ssa.Value
+		var walk func(x *ssa.BasicBlock)
+		walk = func(x *ssa.BasicBlock) {
+			if seen[x] {
+				return
+			}
+			seen[x] = true
+			ifi := ifOf(x)
+			if ifi == nil {
+				return
+			}
+			leaves = append(leaves, boolLeaves(ifi.Cond)...)
+			for _, s := range x.Succs {
+				if isCondBlock(s) && ifOf(s) != nil {
+					walk(s)
+				}
+			}
+		}
+		walk(b)
+		out = append(out, leaves)
+	}
+	// chains that start in a cond block not reached above (defensive)
+	for _, b := range fn.Blocks {
+		if !seen[b] && ifOf(b) != nil {
+			out = append(out, boolLeaves(ifOf(b).Cond))
+		}
+	}
+	return out
 }
